@@ -253,3 +253,28 @@ func constOf(p *Program, rel, name string) string {
 	}
 	return c.Val().ExactString()
 }
+
+// backSliceAllocs: backSlice that also follows loads of locals (Allocs) to the
+// values stored into them.
+func backSliceAllocs(v ssa.Value, throughCalls bool) map[ssa.Value]bool {
+	seen := map[ssa.Value]bool{}
+	work := []ssa.Value{v}
+	for len(work) > 0 {
+		x := work[len(work)-1]
+		work = work[:len(work)-1]
+		for w := range backSlice(x, throughCalls) {
+			if seen[w] {
+				continue
+			}
+			seen[w] = true
+			if al, ok := w.(*ssa.Alloc); ok && al.Referrers() != nil {
+				for _, ref := range *al.Referrers() {
+					if st, ok := ref.(*ssa.Store); ok && st.Addr == al && !seen[st.Val] {
+						work = append(work, st.Val)
+					}
+				}
+			}
+		}
+	}
+	return seen
+}
